@@ -103,7 +103,12 @@ pub fn run(ctx: &Ctx) -> Outcome {
                 }
                 let api = ls.api(code);
                 let lex = ls.lexicon(code);
-                let int_phrase = spell::cardinal(code, n);
+                let int_phrase = if idx % 4 == 3 {
+                    let vs = spell::cardinal_variants(code, n);
+                    vs[rng.usize(vs.len())].text.clone()
+                } else {
+                    spell::cardinal(code, n)
+                };
                 // conditioning on C01
                 if api.validate(&int_phrase).as_deref() != Ok(n.to_string().as_str()) {
                     rep.count("skipped_integer_part_fails_C01");
